@@ -146,8 +146,8 @@ func (e *env) errOp(o Op, tag string, part int, sync func()) (obs, msg string) {
 			q.Set("prompt", "none select_account")
 			q.Set("max_age", "0")
 		case 5:
-			// a well-formed hint signed by a key the provider does not know (fixed times: the twin run sends the same)
-			q.Set("id_token_hint", vkit.AssertionWith(issuer, "u1", []string{"web"}, "kx", "rsa2", time.Unix(1700000000, 0), time.Unix(4102444800, 0), nil))
+			// a well-formed, fresh hint signed by a key the provider does not know
+			q.Set("id_token_hint", vkit.AssertionWith(issuer, "u1", []string{"web"}, "kx", "rsa2", time.Now().Add(-5*time.Second), time.Now().Add(5*time.Minute), nil))
 		}
 		sync()
 		r := ag.Authorize(q)
@@ -220,8 +220,8 @@ func (e *env) errOp(o Op, tag string, part int, sync func()) (obs, msg string) {
 		case 3:
 			r = ag.DeviceAuthorize("openid", wrong)
 		case 4:
-			// an assertion of the service user signed with a key that is not registered for it (fixed times: the twin sends the same)
-			a := vkit.AssertionWith("svc", "svc", []string{issuer}, "ksvc", "rsa2", time.Unix(1700000000, 0), time.Unix(4102444800, 0), nil)
+			// a fresh assertion of the service user, signed with a key that is not registered for it
+			a := vkit.AssertionWith("svc", "svc", []string{issuer}, "ksvc", "rsa2", time.Now().Add(-5*time.Second), time.Now().Add(5*time.Minute), nil)
 			r = ag.Token(url.Values{"grant_type": {vkit.GBearer}, "assertion": {a}, "scope": {"openid"}}, vkit.Cred{Kind: "none"})
 		default:
 			r = ag.Token(url.Values{"grant_type": {vkit.GTE}, "subject_token": {"garbage-" + tag}, "subject_token_type": {string(oidc.AccessTokenType)},
